@@ -103,6 +103,8 @@ def r1(R1, cfg, F):
     R1.check(ok, cfg, gu.path, 'reads-init-arm-shared', 'get_unchecked must take a shared reference to the `init` arm only', gu.loc())
     for c in F.calls_to('^' + re.escape(C + 'get_unchecked') + '$'):
         b = c.body
+        if F.written_in_place(b):
+            continue    # the closure of `once.get().map(|_| ..)`: decided where it is expanded
         ok = False
         why = ''
         og = [x for x in b.calls() if x.callee and x.callee.best == 'once_cell::sync::OnceCell::<T>::get']
@@ -244,15 +246,12 @@ def r5(R5, cfg, F):
     ok = len(gm) == 1 and len(drops) == 2
     table = {}
     if ok:
-        sw = b.primary_switch(gm[0].dest['l'])
-        ok = sw is not None
-        if ok:
-            some, none = b.variant_edge(sw, 1), b.variant_edge(sw, 0)
-            for d in drops:
-                arm = [t for t in (b.access_path(d.args[0]) or []) if t in ('init', 'uninit')]
-                where = 'Some' if d.bb in b.reachable([some]) and d.bb not in b.reachable([none]) else ('None' if d.bb in b.reachable([none]) and d.bb not in b.reachable([some]) else '?')
-                table[where] = arm[0] if arm else '?'
-            ok = table == {'Some': 'init', 'None': 'uninit'}
+        me = [['call@bb%d' % gm[0].bb]]
+        for d in drops:
+            arm = [t for t in (common.deep_path(b, d.args[0]) or []) if t in ('init', 'uninit')]
+            where = 'Some' if common.guarded_by_variant(b, d.bb, me, 1) else ('None' if common.guarded_by_variant(b, d.bb, me, 0) else '?')
+            table[where] = arm[0] if arm else '?'
+        ok = table == {'Some': 'init', 'None': 'uninit'}
     R5.check(ok, cfg, b.path, 'drop:Some->init,None->uninit', 'Drop must drop the `init` arm when the cell is initialised and the `uninit` arm otherwise; it does %s' % table, b.loc(), table=table)
 
 
